@@ -211,8 +211,13 @@ def run_cases(prop, reqs, rundir, tag):
     data = open(reqp, "rb").read()
     errors = []
     cfg = P.PROPS[prop]
+    # replies come on stdout only: anything the real code (or the runtime, when it aborts) writes to
+    # stderr is kept beside the run, never mixed into the reply stream (it would shift every later reply)
     try:
-        rc, out = run([vh_bin(prop), "exec"], inp=data, timeout=cfg.get("exec_timeout", 900))
+        with open(os.path.join(rundir, tag + ".impl.stderr"), "wb") as errf:
+            p = subprocess.run([vh_bin(prop), "exec"], input=data, stdout=subprocess.PIPE, stderr=errf,
+                               timeout=cfg.get("exec_timeout", 900), env=ENV)
+        rc, out = p.returncode, p.stdout.decode("utf-8", "replace")
     except subprocess.TimeoutExpired as e:
         rc, out = 124, (e.output or b"").decode("utf-8", "replace")
     impl = out.split("\n")
